@@ -228,7 +228,7 @@ pub fn spaces(tier: Tier) -> Vec<FSpace> {
     v.push(from_text(seqspace::echar(0, 3)));
     v.push(from_text(seqspace::echar(2, if q { 4 } else { 5 })));
     // (b) token-sequence trees
-    for f in 0..14 {
+    for f in 0..16 {
         v.push(from_text(seqspace::eseq(f, if q { 2 } else { 3 })));
     }
     for s in 0..6 {
@@ -336,6 +336,9 @@ pub fn run_child(tier: Tier, seed: u64) -> i32 {
     for sp in spaces(tier) {
         let before = stats.states.load(std::sync::atomic::Ordering::Relaxed);
         (0..sp.n).into_par_iter().for_each(|i| {
+            if stats.past_cap() {
+                return;
+            }
             let slot = rayon::current_thread_index().unwrap_or(nthreads);
             let desc = format!("{}\t{}", sp.name, i);
             {
